@@ -415,6 +415,48 @@ struct ARun {
         }
       o.cls("iter");
       check(r, 0, 0);
+    } else if (k == "itsh") {  // itsh at drop: iterate, and have the callback of visit #at drop `drop` records from the end of the array
+      if (!typed) return;
+      size_t r = rl(1);
+      if (d.size() % r != 0 || d.size() == 0) return;  // typed arrays hold whole records only
+      opname = "iter with a callback that shrinks the array";
+      static ARun *IT;
+      static size_t it_visit, it_at, it_drop, it_bad_index;
+      static int it_bad;
+      IT = this;
+      it_visit = 0;
+      it_bad = 0;
+      it_at = (size_t)uarg(op, 0, d.size() / r);
+      it_drop = 1 + (size_t)uarg(op, 1, 3 * (d.size() / r) / 2 + 1);
+      size_t b0 = alloc();
+      ea_iter(ty, ea, [](void *rec) {
+        ARun &A = *IT;
+        size_t r = A.rl(1), cnt = A.d.size() / r, i = it_visit++;
+        if (it_bad) return;
+        if (i >= cnt) {  // the array has only cnt records now
+          it_bad = 1;
+          it_bad_index = i;
+          return;
+        }
+        if (rec != ea_get(A.ty, A.ea, i, r)) {
+          it_bad = 2;
+          it_bad_index = i;
+          return;
+        }
+        if (i == it_at) {
+          ea_shrink(A.ty, A.ea, it_drop, r);
+          A.model_resize(it_drop * r > A.d.size() ? 0 : A.d.size() - it_drop * r);
+        }
+      });
+      if (it_bad) {
+        o.fail(it_bad == 1 ? "ea-iter-beyond-end" : "ea-iter-ptr",
+               ctx() + fmt(": after the callback of visit #%zu had dropped %zu records, iter handed out %s (visit #%zu; the array now has %zu records)", it_at, it_drop,
+                           it_bad == 1 ? "a record beyond the end of the array" : "a pointer which is not get(i)", it_bad_index, d.size() / r));
+        return;
+      }
+      note_alloc_change(b0, alloc(), true);
+      o.cls("iter-callback-shrinks-array");
+      check(r, d.size(), d.size());
     } else if (k == "ovf") {  // ovf which kind r x : size-overflowing products
       size_t r = rl(norm_rec(arg(op, 2, 1)));
       int which = (int)uarg(op, 0, 4), kind = (int)uarg(op, 1, 4);
@@ -569,7 +611,7 @@ static rc::Gen<Op> gen_aop(int tier, bool typed) {
     case 9:
       return Op("dup", {r});
     case 10:
-      return Op("iter");
+      return *range<int>(0, 2) ? Op("iter") : Op("itsh", {*range<int64_t>(0, 1 << 20), *range<int64_t>(0, 1 << 20)});
     case 11:
       return Op("ovf", {*range<int64_t>(0, 3), *range<int64_t>(0, 3), r, *range<int64_t>(0, 999)});
     case 12:
